@@ -83,7 +83,7 @@ func verifHdrVal() string {
 // X-Connecting-Ip value and none of the client-supplied client-IP headers; requests
 // that are not proxied never reach the backend.
 //
-//verif:harness name=H19b-headers tier=quick,thorough bounds="method GET/POST/DELETE, 10 concrete request targets (4 documented shapes, robots.txt, other, percent-encoded letters, dots and slashes), each forged header absent, present with a symbolic value, or sent twice with an empty first value, Connection header absent or naming X-Connecting-Ip / X-Real-Ip as hop-by-hop, peer address d.d.d.d:port with symbolic digits" reach=proxied,not-found,robots maxpaths=200000
+//verif:harness name=H19b-headers tier=quick,thorough bounds="method GET/POST/DELETE/HEAD, 10 concrete request targets (4 documented shapes, robots.txt, other, percent-encoded letters, dots and slashes), each forged header absent, present with a symbolic value, or sent twice with an empty first value, Connection header absent or naming X-Connecting-Ip / X-Real-Ip as hop-by-hop, peer address d.d.d.d:port with symbolic digits" reach=proxied,not-found,robots maxpaths=200000
 //verif:assume ReverseProxy.ServeHTTP is replaced by its documented Rewrite-then-RoundTrip behaviour in the symbolic build incl. hop-by-hop header removal (other net/http internals and X-Forwarded-* handling outside the claim); request IDs not generated
 func VerifC19Headers() {
 	api, _ := url.Parse("https://backend.example/api")
@@ -91,7 +91,7 @@ func VerifC19Headers() {
 	rt := &verifRT{}
 	h.httpProxy.Transport = rt
 
-	method := []string{http.MethodGet, http.MethodPost, http.MethodDelete}[verifChoice(3)]
+	method := []string{http.MethodGet, http.MethodPost, http.MethodDelete, http.MethodHead}[verifChoice(4)]
 	// request targets as they arrive on the wire; the server parses them as net/http does
 	targets := []string{"/linkip/dev/abc", "/linkip/dev/abc/status", "/ddns/dev/abc/example.org", "/robots.txt", "/linkip/dev", "/x/y/z",
 		"/linkip/dev/a%62c", "/linkip/%2e%2e/%2e%2e/status", "/ddns/%2E%2E/%2E%2E/admin", "/linkip/dev/enc%2Fstatus%2Fmore"}
